@@ -181,6 +181,10 @@ def report(prop, pmod, results, tier, seed, t0):
         for n in r.get('notes', []):
             if n.startswith('bounded'):
                 bounded.append('%s: %s' % (key, n))
+            if n.startswith('assumed models for this contract only'):
+                a = '%s - %s' % (n, key.split('[')[0])
+                if not any(x.startswith(n) for x in assumptions):
+                    assumptions.append(a)
         finfo = {'contract': key, 'function': r.get('target'), 'source_sha256': r.get('source_sha256'), 'lines': r.get('lines'),
                  'paths': r.get('paths'), 'path_kinds': r.get('path_kinds'), 'status': st, 'obligations': 0, 'discharged': 0,
                  'solver_s': 0.0, 'callee_contracts': r.get('callee_contracts'), 'inlined': r.get('inlined'),
